@@ -422,6 +422,19 @@ func Replay(in []byte) any {
 		if alloc > bound {
 			viol("alloc-unbounded:"+st.A.K, fmt.Sprintf("%d bytes allocated while handling a message of %d bytes (bound %d)", alloc, wire, bound))
 		}
+		// C12: the majority vote on the metadata size means something only if a peer has one vote.  Only the
+		// hostile peer ever announces a size here.
+		if !infoKnown {
+			_, _, votes := t.VerifInfoState()
+			total := 0
+			for _, n := range votes {
+				total += n
+			}
+			if total > 1 {
+				viol("vote-stuffing", fmt.Sprintf("one peer has cast %d votes on the metadata size (%v): repeated extended handshakes are counted again", total, votes))
+				return out
+			}
+		}
 		got := "ok"
 		if r.err != nil {
 			got = "disconnect"
